@@ -116,9 +116,12 @@ func (r *BindRequestReconciler) Reconcile(ctx context.Context, req ctrl.Request)
 			err = fmt.Errorf("Internal Error: %v", r)
 		}
 
+		// what the pod is told is decided by the outcome of the bind itself, not by what UpdateStatus makes of it
+		// (it swallows the error of a request that was already failed, and a retry is not a success)
+		bindErr := err
 		result, err = r.UpdateStatus(ctx, bindRequest, result, err)
 		if pod != nil {
-			r.updatePodCondition(ctx, bindRequest, pod, result, err)
+			r.updatePodCondition(ctx, bindRequest, pod, ctrl.Result{}, bindErr)
 		}
 
 		if finalError != nil {
